@@ -59,6 +59,22 @@ def run_constructor(ctx: Ctx, metrics, ech, gm, tp, lists, n_pred=3, n_ref=5):
 
 
 def check(ctx: Ctx):
+    check_global(ctx)
+    # semantic input: the foreground reaching the result is the input's foreground only if the
+    # dtype chosen before labelling holds every label (R05.4, R05.6)
+    from . import c03, c05
+
+    c03._guarded(ctx, "R05.4", c05.fitting_uint_table)
+    c03._guarded(ctx, "R05.6", c05.check_semantic_dtype)
+    # results of later evaluations (another group, a flipped copy, the exchanged pair, a second
+    # threshold) are only meaningful if no step writes into the caller's arrays (R15.8)
+    from . import c15 as _c15
+    from . import c03 as _c03
+
+    _c03._guarded(ctx, "R15.8", _c15.check_param_aliasing)
+
+
+def check_global(ctx: Ctx):
     prog = ctx.prog
     metrics = metric_objs(prog)
     ech, handlers = build_edge_case_handler(prog, metrics)
